@@ -4,7 +4,7 @@
 //
 // Every harness is loop-free and symbolic over the *whole* domain of its operands: a pass is a
 // complete proof for that function / shape, not a bounded run.
-#![allow(dead_code, unused)]
+#![allow(warnings)]
 use super::*;
 use core::ops::RangeBounds;
 
